@@ -292,8 +292,8 @@ Proof.
   - eapply CB_same; [| eapply on_new_worker_same; exact H | exact HC].
     unfold on_new_worker in H. inversion H; subst. reflexivity.
   - destruct (find_proc _ w); [|discriminate]. eapply on_remove_worker_CB; [| | exact H]; [exact Hok | exact HC].
-  - eapply handle_submit_array_CB; [exact F | exact HC | | exact H]. destruct entries; exact Hwf.
-  - destruct (bad_graph_rq _ _); [inversion H; subst; eapply CB_same; [| |exact HC]; reflexivity|]. eapply handle_submit_graph_CB; eassumption.
+  - destruct (bad_submit_lengths _ _); [inversion H; subst; eapply CB_same; [| |exact HC]; reflexivity|]. eapply handle_submit_array_CB; [exact F | exact HC | | exact H]. destruct entries; exact Hwf.
+  - destruct (bad_graph_rq _ _); [inversion H; subst; eapply CB_same; [| |exact HC]; reflexivity|]. destruct (dead_dep _ _ _); [inversion H; subst; eapply CB_same; [| |exact HC]; reflexivity|]. eapply handle_submit_graph_CB; eassumption.
   - eapply handle_open_CB; eassumption.
   - eapply handle_close_CB; eassumption.
   - eapply handle_cancel_CB; [| | exact H]; [exact Hok | exact HC].
